@@ -164,6 +164,8 @@ class _TEval:
                     continue
                 if isinstance(st, ast.Return):
                     return self.ev(st.value)
+                if isinstance(st, (ast.Assert, ast.Pass)):
+                    continue          # an assertion is assumed to hold (as in SymEval)
                 raise AnalysisError('%s: statement `%s`' % (self.m.name, norm_text(st)[:50]))
             return None
         r = block(self.m.node.body)
@@ -879,6 +881,8 @@ def prop_consist(ctx):
                 # x0 = T(...) @ e0  contains a call on the error model: evaluate generally
                 E.env[t.id] = E.val(_inline_em_calls(E, v))
                 continue
+        if isinstance(st, (ast.Assert, ast.Pass)):
+            continue
         raise AnalysisError('propagate_errors: statement `%s`' % norm_text(st)[:60])
     ctx.need(E.stores, 'propagate_errors: recursion store not found')
     nm, idx, val, node = E.stores[-1]
